@@ -238,43 +238,77 @@ theorem fastSearch_eq_generic (fl : RFlags) (f : Finder) (n li : Nat) (hf : Left
     fastSearch fl f n li = genericSearch fl f n li := by
   simp only [fastSearch, genericSearch, exec_lastIndex_protocol fl f n 0 hf]
 
-/-- Fast path of `Symbol.match` for a global, non-sticky RegExp (one `findAll` sweep) yields the same
-matches as the generic exec loop with AdvanceStringIndex after empty matches, code-point steps in
-unicode mode included.  PARTIAL: (1) `findAll` is the idealised engine iteration `findAllLoop`, not the
-engines' own FindAll / FindNextMatch; (2) sticky+global is excluded — see `fastMatch_sticky_witness`;
-(3) replace / split fast paths are compared by the differential check only. -/
-theorem fastMatch_eq_generic_partial (fl : RFlags) (f : Finder) (units : List Nat)
-    (hg : fl.global = true) (hy : fl.sticky = false) :
-    (genericGlobalMatches fl f units).1 = (fastGlobalMatches fl f units).1 := by
+/-- The sweep the generic protocol performs for a global RegExp (`getGlobalRegexpMatches`: exec until null,
+AdvanceStringIndex after an empty match, code-point steps in unicode mode) is the single "find all" sweep
+`idealAll` — for EVERY flag combination, sticky included, and every finder.  This is the sweep
+fixes/C20-sticky-fast-paths-use-generic-protocol.diff makes the sticky case use. -/
+theorem idealSweep_eq_generic (fl : RFlags) (f : Finder) (units : List Nat) (hg : fl.global = true) :
+    (genericGlobalMatches fl f units).1 = idealAll fl f units 0 none fl.sticky := by
   obtain ⟨g, y, u⟩ := fl
-  simp only at hg hy; subst hg hy
-  simp only [genericGlobalMatches, fastGlobalMatches, findAll]
-  have key : ∀ (fuel li e : Nat),
-      (globalLoop ⟨true, false, u⟩ f units fuel li).1 = findAllLoop ⟨true, false, u⟩ f units false fuel li e := by
+  simp only at hg; subst hg
+  simp only [genericGlobalMatches, idealAll]
+  have key : ∀ (fuel li : Nat),
+      (globalLoop ⟨true, y, u⟩ f units fuel li).1 = idealAllLoop ⟨true, y, u⟩ f units y fuel li none := by
     intro fuel
     induction fuel with
-    | zero => intro li e; rfl
+    | zero => intro li; rfl
     | succ fuel ih =>
-      intro li e
-      simp only [globalLoop, findAllLoop, execRegexp, getLastIndex]
+      intro li
+      simp only [globalLoop, idealAllLoop, execRegexp, getLastIndex]
       by_cases hin : li ≤ units.length
       · have hnot : ¬ li > units.length := by omega
         cases hfi : f li with
         | none => simp [hin, hnot, hfi]
         | some r =>
-          simp [hin, hnot, hfi, fun li => ih li r.stop]
+          cases y with
+          | false => simp [hin, hnot, hfi, ih]
+          | true =>
+            by_cases hs : r.start = li
+            · simp [hin, hnot, hfi, hs, ih]
+            · simp [hin, hnot, hfi, hs]
       · have hnot : li > units.length := by omega
         simp [hin, hnot]
-  exact key _ 0 0
+  exact key _ 0
+
+/-- The regexp2 wrapper loops as coded (`r2All`: sticky test against the END of the previous match) coincide
+with the ideal sweep whenever the sticky filter is off. -/
+theorem r2All_eq_ideal_nonsticky (fl : RFlags) (f : Finder) (units : List Nat) (start : Nat) (limit : Option Nat) :
+    r2All fl f units start limit false = idealAll fl f units start limit false := by
+  simp only [r2All, idealAll]
+  have key : ∀ (fuel pos expect : Nat) (lim : Option Nat),
+      r2AllLoop fl f units false fuel pos expect lim = idealAllLoop fl f units false fuel pos lim := by
+    intro fuel
+    induction fuel with
+    | zero => intro pos expect lim; rfl
+    | succ fuel ih =>
+      intro pos expect lim
+      simp only [r2AllLoop, idealAllLoop]
+      split
+      · rfl
+      · cases f pos with
+        | none => rfl
+        | some r => simp [ih]
+  exact key _ _ _ _
+
+/-- Fast path of `Symbol.match` for a global, non-sticky RegExp = generic path.  PARTIAL only because
+(1) the engines' own iteration is taken to be regexp2's FindNextMatch sweep as wrapped by goja (`r2All`); Go's
+FindAll differs (`goAll_adjacent_empty_witness`); (2) sticky+global is false for the current code
+(`fastMatch_sticky_witness`). -/
+theorem fastMatch_eq_generic_partial (fl : RFlags) (f : Finder) (units : List Nat)
+    (hg : fl.global = true) (hy : fl.sticky = false) :
+    (genericGlobalMatches fl f units).1 = (fastGlobalMatches fl f units).1 := by
+  rw [idealSweep_eq_generic fl f units hg]
+  simp only [fastGlobalMatches, hy]
+  exact (r2All_eq_ideal_nonsticky fl f units 0 none).symm
 
 /-- The idealised finder of /a*/ on "baa" (leftmost-longest at each start). -/
 def witnessFinder : Finder := fun i =>
   if i = 0 then some ⟨[0, 0], none⟩ else if i = 1 then some ⟨[1, 3], none⟩
   else if i = 2 then some ⟨[2, 3], none⟩ else if i = 3 then some ⟨[3, 3], none⟩ else none
 
-/-- Defect witness (known finding `fast-findall-sticky-after-empty`): for /a*/gy on "baa" the generic
-protocol finds "", "aa", "" but the fast path's sticky filter (regexp.go:375-380, 498-507: the next match
-must start at the END of the previous one, which an empty match never allows) stops after "". -/
+/-- Defect witness (known finding `fast-vs-generic:sticky-after-empty`): for /a*/gy on "baa" the generic
+protocol finds "", "aa", "" but the coded sticky filter (regexp.go:375-380, 461-466, 498-507: the next match must
+start at the END of the previous one, which an empty match never allows) stops after "". -/
 theorem fastMatch_sticky_witness :
     ¬ (∀ (fl : RFlags) (f : Finder) (units : List Nat), fl.global = true →
         (genericGlobalMatches fl f units).1 = (fastGlobalMatches fl f units).1) := by
@@ -282,6 +316,74 @@ theorem fastMatch_sticky_witness :
   have := h ⟨true, true, false⟩ witnessFinder [98, 97, 97] rfl
   revert this
   decide
+
+/-- The finder of /a*/ on "baaac". -/
+def witnessFinder2 : Finder := fun i =>
+  if i = 0 then some ⟨[0, 0], none⟩ else if i = 1 then some ⟨[1, 4], none⟩ else if i = 2 then some ⟨[2, 4], none⟩
+  else if i = 3 then some ⟨[3, 4], none⟩ else if i = 4 then some ⟨[4, 4], none⟩ else if i = 5 then some ⟨[5, 5], none⟩ else none
+
+/-- Defect witness (known finding `fast-vs-generic:go-adjacent-empty`): Go's `FindAll` drops the empty match
+at 4 that follows "aaa" in "baaac"; the protocol's sweep keeps it. -/
+theorem goAll_adjacent_empty_witness :
+    ¬ (∀ (fl : RFlags) (f : Finder) (units : List Nat), goAll fl f units = idealAll fl f units 0 none false) := by
+  intro h
+  have := h ⟨true, false, false⟩ witnessFinder2 [98, 97, 97, 97, 99]
+  revert this
+  decide
+
+/-- Defect witness (known finding `fast-vs-generic:split-empty-at-previous-end`): the fast `Symbol.split`
+loop applied to the complete sweep of /a*/ over "baaac" yields "b","","c"; the generic algorithm "b","c". -/
+theorem fastSplit_witness :
+    ¬ (∀ (f : Finder) (units : List Nat),
+        fastSplit units ((idealAll {} f units 0 none false).map (·.idx)) none = genericSplit f units false 4294967295) := by
+  intro h
+  have := h witnessFinder2 [98, 97, 97, 97, 99]
+  revert this
+  decide
+
+/-- Fast `Symbol.replace` accumulation (`stringReplace`: copy the piece before each match when
+`start != lastIndex`, then the replacement, then the tail when `lastIndex != length`) = the generic
+accumulation (`position ≥ nextSourcePosition`, `nextSourcePosition < length`) for every list of raw results
+that is ordered, non-overlapping and inside the subject, and every replacement function. -/
+theorem fastReplace_eq_generic (units : List Nat) (repl : List Int → List Nat) (raw : List (List Int))
+    (h : Ordered units.length raw 0) :
+    fastReplace units repl raw = genericReplace units (raw.map (fun r => (rS r, rE r - rS r, repl r))) := by
+  cases raw with
+  | nil =>
+    simp only [fastReplace, genericReplace, genericReplaceLoop, List.map_nil, List.isEmpty_nil, if_true]
+    by_cases hn : 0 < units.length
+    · simp [hn, sub_all]
+    · have : units = [] := List.eq_nil_of_length_eq_zero (by omega)
+      simp [this]
+  | cons r rest =>
+    have hl := fastReplaceLoop_eq units repl units.length (r :: rest) 0 [] h
+    simp only [fastReplace, genericReplace, List.isEmpty_cons, Bool.false_eq_true, if_false]
+    rw [← hl.1]
+    have hle := hl.2
+    generalize fastReplaceLoop units repl (r :: rest) 0 [] = res at hle
+    obtain ⟨buf, last⟩ := res
+    simp only at hle ⊢
+    by_cases hlast : last = units.length
+    · have : ¬ last < units.length := by omega
+      simp [hlast]
+    · have : last < units.length := by omega
+      simp [hlast, this]
+
+/-- `buildUTF8PosMap` / `positionMap.get` (the path that runs Go's FindAll over a UTF-8 copy of a well-formed
+subject): the strict decoding is the lenient one, offset 0 maps to 0, and the UTF-8 offset of every rune
+boundary maps to the UTF-16 offset of the same boundary. -/
+theorem utf8map_correct (units : List Nat) (l : List (Nat × Nat)) (h : strictDecode units = some l) :
+    l = decode units ∧
+    buildUTF8PosMap units = some (utf8Loop l 0 0) ∧
+    pmGet (utf8Loop l 0 0) 0 = some 0 ∧
+    ∀ k, 1 ≤ k → k ≤ l.length → pmGet (utf8Loop l 0 0) (pre8 l k) = some (totalSize (l.take k)) := by
+  refine ⟨strictDecode_eq_decode units l h, by simp [buildUTF8PosMap, h], by simp [pmGet], ?_⟩
+  intro k h1 h2
+  have hpos := pre8_pos l k h1 h2
+  have hs := searchSrc_utf8Loop l 0 0 k h1 h2
+  simp only [Nat.zero_add] at hs
+  have hne : pre8 l k ≠ 0 := by omega
+  simp [pmGet, hne, hs]
 
 /-! ## non-vacuity examples (tests on literals, not theorems) -/
 
